@@ -41,7 +41,8 @@ def main():
     if args[:1] == ["-j"]:
         j = int(args[1])
         args = args[2:]
-    names = sorted(n for n in os.listdir(os.path.join(HERE, "seeded")) if os.path.isdir(os.path.join(HERE, "seeded", n)))
+    names = sorted(n for n in os.listdir(os.path.join(HERE, "seeded"))
+                   if os.path.isdir(os.path.join(HERE, "seeded", n)) and not n.startswith("_"))
     if args:
         names = [n for n in names if any(n.startswith(a) for a in args)]
     out = []
